@@ -38,6 +38,8 @@ type SpecCtx struct {
 	lookup func(name string, st *State) (SVal, bool)
 	// watermark above which objects count as fresh(); "" = the function's entry watermark
 	freshBase string
+	// inOld: evaluating inside old(): parameter names denote entry values
+	inOld bool
 	// asGoal: the clause is being proved (unfolding() contributes its definition as a hypothesis)
 	asGoal bool
 	// fold: item(k)
@@ -165,6 +167,11 @@ func (c *SpecCtx) tr(e ast.Expr) SVal {
 		if cv, ok := c.cellVars[x.Name]; ok {
 			return c.loadPtr(cv.t, cv.ty.Underlying().(*types.Pointer).Elem())
 		}
+		if c.inOld {
+			if v, ok := fv.params[x.Name]; ok {
+				return v
+			}
+		}
 		if c.lookup != nil {
 			if v, ok := c.lookup(x.Name, c.st); ok {
 				return v
@@ -254,6 +261,20 @@ func (c *SpecCtx) tr(e ast.Expr) SVal {
 						return c.globalVar(oo)
 					}
 					specFail("unsupported package member %s.%s", id.Name, x.Sel.Name)
+				}
+				if c.lookup == nil || func() bool { _, ok := c.lookup(id.Name, c.st); return !ok }() {
+					if _, isCell := c.cellVars[id.Name]; !isCell {
+						for path, p := range fv.eng.pkgByPath {
+							if p.Types != nil && fv.eng.inRepo(path) && p.Types.Name() == id.Name {
+								switch oo := p.Types.Scope().Lookup(x.Sel.Name).(type) {
+								case *types.Const:
+									return c.constVal(oo)
+								case *types.Var:
+									return c.globalVar(oo)
+								}
+							}
+						}
+					}
 				}
 			}
 		}
@@ -538,6 +559,7 @@ func (c *SpecCtx) call(x *ast.CallExpr) SVal {
 			}
 			n := *c
 			n.st = c.old
+			n.inOld = true
 			return n.tr(x.Args[0])
 		case "len":
 			v := c.tr(x.Args[0])
@@ -743,10 +765,70 @@ func (c *SpecCtx) expandDefine(d *Define, argCtx *SpecCtx, args []ast.Expr) SVal
 func (c *SpecCtx) resolveTypeString(s string) types.Type {
 	eng := c.fv.eng
 	tv, err := types.Eval(eng.fset, c.pkg, eng.contractPos[c.pkg.Path()], s)
-	if err != nil || !tv.IsType() {
-		specFail("cannot resolve type %q: %v", s, err)
+	if err == nil && tv.IsType() {
+		return tv.Type
 	}
-	return tv.Type
+	// own resolver: allows unexported names of other packages (pkg.name)
+	if t := c.parseType(strings.TrimSpace(s)); t != nil {
+		return t
+	}
+	specFail("cannot resolve type %q: %v", s, err)
+	return nil
+}
+
+func (c *SpecCtx) parseType(s string) types.Type {
+	switch {
+	case strings.HasPrefix(s, "*"):
+		if t := c.parseType(s[1:]); t != nil {
+			return types.NewPointer(t)
+		}
+		return nil
+	case strings.HasPrefix(s, "[]"):
+		if t := c.parseType(s[2:]); t != nil {
+			return types.NewSlice(t)
+		}
+		return nil
+	case strings.HasPrefix(s, "map["):
+		d := 0
+		for i := 3; i < len(s); i++ {
+			if s[i] == '[' {
+				d++
+			} else if s[i] == ']' {
+				d--
+				if d == 0 {
+					k, v := c.parseType(s[4:i]), c.parseType(s[i+1:])
+					if k == nil || v == nil {
+						return nil
+					}
+					return types.NewMap(k, v)
+				}
+			}
+		}
+		return nil
+	case s == "interface{}" || s == "any":
+		return types.NewInterfaceType(nil, nil)
+	}
+	if i := strings.LastIndex(s, "."); i >= 0 {
+		pn, name := s[:i], s[i+1:]
+		// by import name in the contract file's scope, or by package name among loaded packages
+		if o, ok := c.lookupPkgObj(pn).(*types.PkgName); ok {
+			if tn, ok := o.Imported().Scope().Lookup(name).(*types.TypeName); ok {
+				return tn.Type()
+			}
+		}
+		for path, p := range c.fv.eng.pkgByPath {
+			if p.Types != nil && (p.Types.Name() == pn || path == pn) {
+				if tn, ok := p.Types.Scope().Lookup(name).(*types.TypeName); ok {
+					return tn.Type()
+				}
+			}
+		}
+		return nil
+	}
+	if tn, ok := c.lookupPkgObj(s).(*types.TypeName); ok {
+		return tn.Type()
+	}
+	return nil
 }
 
 // ghostCall: an uninterpreted function over the sorts of the Go signature.
